@@ -627,6 +627,69 @@ func SelectClosedOrTimer(ch <-chan struct{}, d time.Duration, label string) int 
 	return 1
 }
 
+// SelectClosedOrChan is SelectClosedOrTimer for a select whose second arm is an arbitrary channel (timer.C of a
+// time.NewTimer, a context's Done(), ...) instead of time.After(d):
+//
+//	select { case <-ch: A  case <-other: B }
+//
+// Under the controlled scheduler the second arm is a virtual timer thread exactly as in SelectClosedOrTimer (it may
+// fire at any later scheduling decision); the real `other` channel is only consulted when no scheduler is installed or
+// the run has been abandoned.
+func SelectClosedOrChan[T any](ch <-chan struct{}, other <-chan T, label string) int {
+	if cur == nil || cur.current == nil {
+		select {
+		case <-ch:
+			return 0
+		case <-other:
+			return 1
+		}
+	}
+	s := cur
+	owner := s.current.id
+	fired := false
+	tid := s.Spawn("timer", func() {
+		Yield("timer:" + label)
+		fired = true
+	})
+	s.threads[tid].label = "timer-start"
+	if s.TimerOwner == nil {
+		s.TimerOwner = map[int]int{}
+	}
+	s.TimerOwner[tid] = owner
+	closed := func() bool {
+		if s.ClosedGate != nil {
+			return s.ClosedGate(ch)
+		}
+		select {
+		case <-ch:
+			return true
+		default:
+			return false
+		}
+	}
+	s.park(label, func() bool { return closed() || fired })
+	if s.released {
+		select {
+		case <-ch:
+			return 0
+		case <-other:
+			return 1
+		}
+	}
+	if closed() {
+		<-ch
+		s.LastSelect = 0
+		return 0
+	}
+	s.LastSelect = 1
+	return 1
+}
+
+// Uninstall removes the installed scheduler without finishing its run (a harness watchdog found that the run makes no
+// progress: the resumed thread is blocked for real). Goroutines of that run which come back later see no scheduler and
+// fall through to the real operations.
+func Uninstall() { cur = nil }
+
 // Release abandons the run: every thread that is still parked is resumed and continues as an ordinary
 // goroutine (all vsched operations fall through to the real ones once no scheduler is installed), so that
 // the harness can shut the system under test down with real calls. Call it after Run has returned. The
